@@ -1,4 +1,5 @@
 """Plans of the flow-graph properties decided on FlowGraph/FlowTrace (C01 C02 C04 C05 C06 C19 ...)."""
+import json
 import copy
 import random
 
@@ -519,3 +520,88 @@ def basin_graph_cases(seed, count, max_side, tag, high_degree=0):
                       dict(op="bgraph", g=0, m="kruskal"), dict(op="bgraph", g=0, m="boruvka")]
         steps.append(dict(op="drop", g=0))
         yield flow_case("%s-bowls-%d-%d" % (tag, seed, i), g, steps, timeout_ms=30000)
+
+
+def inject_cases(graphs, seed, tag, per_case=10, big=0):
+    """B1 for the Orders / Sweeps models: every graph TLC enumerated (receiver lists + flow partition) is
+    installed in a real flow graph by a user-defined router written against the library's extension point,
+    the library's own traversal-order algorithms run on it, and accumulate / basins / kernels / a graph
+    snapshot are observed.  Graphs no router can produce on a grid (long-range receivers, zero shares, a
+    node draining to any other) are covered this way.  `big` further random DAGs on a 3x3 raster."""
+    rng = random.Random(seed)
+    items = []
+    for gr in graphs:
+        n = len(gr["rec"])
+        grid = gen.raster(2, 2, "queen", [gen.CORE] * 4) if n <= 4 else gen.raster(2, 3, "queen", [gen.CORE] * 4)
+        items.append((grid, gr))
+    for _ in range(big):
+        n = 9
+        order = list(range(n))
+        rng.shuffle(order)
+        rec, w8 = [None] * n, [None] * n
+        multi = rng.random() < 0.6
+        for pos, i in enumerate(order):
+            lower = order[:pos]
+            k = 0 if not lower or rng.random() < 0.2 else rng.randint(1, min(len(lower), 4 if multi else 1))
+            if k == 0:
+                rec[i], w8[i] = [i], [256]
+            else:
+                rec[i] = sorted(rng.sample(lower, k))
+                cuts = sorted(rng.choice([0, 32, 64, 128, 192, 256]) for _ in range(k - 1))
+                w8[i] = [b - a for a, b in zip([0] + cuts, cuts + [256])]
+        items.append((gen.raster(3, 3, "queen", [gen.CORE] * 4), dict(rec=rec, w8=w8)))
+    by_grid = {}
+    for grid, gr in items:
+        by_grid.setdefault(json.dumps(grid, sort_keys=True), []).append(gr)
+    cid = 0
+    for gkey, lst in by_grid.items():
+        grid = json.loads(gkey)
+        n = gen.grid_size(grid)
+        for c0 in range(0, len(lst), per_case):
+            steps = []
+            for k, gr in enumerate(lst[c0:c0 + per_case]):
+                rec = [list(r) for r in gr["rec"]] + [[i] for i in range(len(gr["rec"]), n)]
+                w8 = [list(w) for w in gr["w8"]] + [[256] for _ in range(len(gr["w8"]), n)]
+                single = all(len(r) == 1 for r in rec)
+                term = [i for i in range(n) if rec[i] == [i]]
+                hasdon = {j for i in range(n) for j in rec[i] if j != i}
+                bl = rng.sample(term, rng.randint(1, len(term)))
+                lonely = [i for i in term if i not in hasdon and i not in bl]
+                mask = [0] * n
+                if single and lonely and rng.random() < 0.4:
+                    for i in rng.sample(lonely, rng.randint(1, len(lonely))):
+                        mask[i] = 1
+                sd = [1 if (single and i in term and i not in bl and not mask[i] and rng.random() < 0.5) else 0 for i in range(n)]
+                inj = dict(k="inject", d="single" if single else "multi", rec=rec, w8=w8, sd=sd)
+                style = rng.choice(["plain", "plain", "snap", "after_router"])
+                ops = [inj]
+                if style == "snap":
+                    ops = [inj, gen.op_snap("s", 1, 0)]
+                elif style == "after_router":
+                    ops = [gen.op_multi(4) if single else gen.op_single(), inj]
+                z = dict(k="int", m=[rng.randrange(3) for _ in range(n)], e=0)
+                ex = []
+                if single:
+                    u = rng.randrange(n)
+                    srcs = [[rng.randint(0, 5) for _ in range(n)], [rng.randint(-3, 3) for _ in range(n)],
+                            [1 if j == u else 0 for j in range(n)]]
+                else:
+                    srcs = [[rng.randint(0, 3) for _ in range(n)], [rng.randint(-2, 2) for _ in range(n)]]
+                ex += [dict(op="acc", g=k, src=s, K=0 if single else 16) for s in srcs]
+                if single:
+                    ex.append(dict(op="basins", g=k))
+                ex.append(dict(op="kernel", g=k, dir="breadth", thr=rng.choice([1, 2, 3]), minblock=rng.choice([0, 1]),
+                               minlevel=rng.choice([0, 2]), init=rng.choice([0, 1])))
+                ex.append(dict(op="kernel", g=k, dir=rng.choice(["any", "depth"]), thr=1))
+                if style == "snap":
+                    ex.append(dict(op="snap", g=k, name="s"))
+                    ex.append(dict(op="acc", g=k, snap="s", src=srcs[0], K=0 if single else 16))
+                    if single:
+                        ex.append(dict(op="basins", g=k, snap="s"))
+                    ex.append(dict(op="kernel", g=k, snap="s", dir="breadth", thr=rng.choice([1, 2])))
+                steps += steps_for_graph(k, ops, mask, bl, z, ex)
+                steps.append(dict(op="update", g=k, z=z))      # the same object once more
+                steps += ex[:3]
+                steps.append(dict(op="drop", g=k))
+            yield flow_case("%s-%d-%d" % (tag, seed, cid), grid, steps)
+            cid += 1
